@@ -35,7 +35,22 @@ variable {K : Type} [Add K] [Sub K] [Mul K] [Div K] [Neg K] [NatCast K] [LT K] [
 
 def ofTriple (t : K × K × K) : V3 K := ⟨t.1, t.2.1, t.2.2⟩
 
-/-- `Impl::eig0` driven by the translated tables: rows, cross products, lengths, running maximum, result -/
+/-- evaluation of a translated selection tree (`Gen.Sel`): `lt a b` tests `d a < d b`, `le a b` tests `d a ≤ d b`
+(the translator canonicalises `x > y` to `y < x` and `x >= y` to `y <= x` and never negates a comparison, so the
+tree decides NaN lengths as the source does); a leaf `(c, k)` is candidate `c` divided by length `k` -/
+def evalSel {β : Type} (d : Nat → K) (leaf : Nat → Nat → β) : Gen.Sel → β
+  | .leaf c k => leaf c k
+  | .lt a b t f => if d a < d b then evalSel d leaf t else evalSel d leaf f
+  | .le a b t f => if d a ≤ d b then evalSel d leaf t else evalSel d leaf f
+
+/-- the maximum search of the hand-written `eig0` (`Model/C08.lean`) as a decision tree: the longest cross product,
+the earlier one on ties -/
+def eig0_handTree : Gen.Sel := .lt 0 1 (.lt 1 2 (.leaf 2 2) (.leaf 1 1)) (.lt 0 2 (.leaf 2 2) (.leaf 0 0))
+
+/-- `Impl::eig0` driven by the translated tables: rows, cross products, lengths, and the decision tree that the
+symbolic execution of the function body yields for the choice of the result (round five: any spelling of the search —
+running maximum with an index, nested `if`s, `?:` — gives a tree; `Proofs/C08Tie` proves it equivalent over ℝ to
+`eig0_handTree`) -/
 def eig0T (sqrt : K → K) (A : M3 K) (ev : K) : V3 K :=
   let rows : V3 K × V3 K × V3 K :=
     (ofTriple (Gen.eig0_row0 A.a00 A.a01 A.a02 A.a10 A.a11 A.a12 A.a20 A.a21 A.a22 ev),
@@ -45,20 +60,7 @@ def eig0T (sqrt : K → K) (A : M3 K) (ev : K) : V3 K :=
     let p := Gen.eig0_crossPairs.getD k (0, 0)
     cross (get3 p.1 rows) (get3 p.2 rows)
   let d : Nat → K := fun k => sqrt (norm2_3 (cr (Gen.eig0_normOf.getD k 0)))
-  -- `dmax = d_init; imax = i_init; if (d_c > dmax) { [dmax = d_u;] imax = i; }  if (d_c' > dmax) { [dmax = d_u';] imax = i'; }`
-  -- (exactly two updates: the translator rejects anything else)
-  let s1 := Gen.eig0_steps.getD 0 (0, 0, 0)
-  let s2 := Gen.eig0_steps.getD 1 (0, 0, 0)
-  let sel : K × Nat :=
-    if d Gen.eig0_init.1 < d s1.1 then ((if s1.2.1 < 3 then d s1.2.1 else d Gen.eig0_init.1), s1.2.2)
-    else (d Gen.eig0_init.1, Gen.eig0_init.2)
-  let imax : Nat := if sel.1 < d s2.1 then s2.2.2 else sel.2
-  let r0 := Gen.eig0_result.getD 0 (0, 0)
-  let r1 := Gen.eig0_result.getD 1 (0, 0)
-  let r2 := Gen.eig0_result.getD 2 (0, 0)
-  if imax = 0 then ⟨(cr r0.1).x / d r0.2, (cr r0.1).y / d r0.2, (cr r0.1).z / d r0.2⟩
-  else if imax = 1 then ⟨(cr r1.1).x / d r1.2, (cr r1.1).y / d r1.2, (cr r1.1).z / d r1.2⟩
-  else ⟨(cr r2.1).x / d r2.2, (cr r2.1).y / d r2.2, (cr r2.1).z / d r2.2⟩
+  evalSel d (fun c k => (⟨(cr c).x / d k, (cr c).y / d k, (cr c).z / d k⟩ : V3 K)) Gen.eig0_select
 
 /-- `Impl::orthoComp` with the translated branch condition, normalising 2-vector and components of `u` -/
 def orthoCompT (sqrt : K → K) (e : V3 K) : V3 K × V3 K :=
